@@ -59,6 +59,19 @@ reg("C04", "exploration",
     "DESIGN.md section 3, C04")
 
 
+reg("C17", "exploration",
+    "Exhaustive enumeration of dense prefixes plus generated search: every TimeTicks value 0..2^22 (quick) / 0..2^26 "
+    "(thorough), every value within 2^10 of each power of two and the top 2^16 values go through all three "
+    "conversion laws (pythonize == v x 10 ms; timedelta -> ticks -> timedelta; ticks -> timedelta -> ticks) and the "
+    "encode/decode round trip; Hypothesis covers Counter/Counter64 built from integers in -2^70..2^70 (wrap modulo "
+    "2^32/2^64, clamp at 0), IpAddress over 32 bits (plus 2^20 / 2^26 strided samples), unsigned decoding of 4-/8-octet "
+    "content with the top bit set and of canonical content, sub-tick timedeltas, and delivery through Client.get / "
+    "PyWrapper.get. The enumerated part is complete; the rest is sampling.",
+    "Oracles are arithmetic (no puresnmp/x690 code) and lib/vber.py; a timedelta that is not a whole tick may floor or round.",
+    "exhaustive enumeration of value ranges + Hypothesis property-based testing with arithmetic / round-trip oracles",
+    "DESIGN.md section 3, C17")
+
+
 def main():
     present = sorted(os.path.basename(p)[:3].upper()
                      for p in glob.glob(os.path.join(VERIF, "checks", "c[0-9][0-9]_*.py")))
